@@ -95,7 +95,9 @@ func (r *synthReader) match(id index.IndexInternalID) (*Match, error) {
 func (r *synthReader) TermFieldReader(ctx context.Context, term []byte, field string, includeFreq, includeNorm, includeTermVectors bool) (index.TermFieldReader, error) {
 	return nil, fmt.Errorf("not supported")
 }
-func (r *synthReader) DocIDReaderAll() (index.DocIDReader, error) { return nil, fmt.Errorf("not supported") }
+func (r *synthReader) DocIDReaderAll() (index.DocIDReader, error) {
+	return nil, fmt.Errorf("not supported")
+}
 func (r *synthReader) DocIDReaderOnly(ids []string) (index.DocIDReader, error) {
 	return nil, fmt.Errorf("not supported")
 }
@@ -109,9 +111,9 @@ func (r *synthReader) FieldDictPrefix(field string, termPrefix []byte) (index.Fi
 	return nil, fmt.Errorf("not supported")
 }
 func (r *synthReader) Document(id string) (index.Document, error) { return nil, nil }
-func (r *synthReader) Fields() ([]string, error)                 { return nil, nil }
-func (r *synthReader) GetInternal(key []byte) ([]byte, error)    { return nil, nil }
-func (r *synthReader) DocCount() (uint64, error)                 { return uint64(len(r.seen)), nil }
+func (r *synthReader) Fields() ([]string, error)                  { return nil, nil }
+func (r *synthReader) GetInternal(key []byte) ([]byte, error)     { return nil, nil }
+func (r *synthReader) DocCount() (uint64, error)                  { return uint64(len(r.seen)), nil }
 func (r *synthReader) ExternalID(id index.IndexInternalID) (string, error) {
 	m, err := r.match(id)
 	if err != nil {
